@@ -39,6 +39,7 @@ var (
 	errCommit   = errors.New("injected commit failure")
 	errRollback = errors.New("injected rollback failure")
 	errExec     = errors.New("injected exec failure")
+	errRecorded = errors.New("error recorded on the handle by a step that returned nil")
 )
 
 type connector struct{ e *env }
@@ -144,19 +145,22 @@ const (
 	// begin on a handle that is already in a transaction); the step ignores / returns that error
 	sNestedIgnored
 	sNestedPropagated
-	sLast = sNestedPropagated
+	// the step records an error on the handle it was given (txn.AddError - what an ignored failing
+	// nested savepoint leaves behind) and returns nil: as far as Transact is concerned the step succeeded
+	sAddErrorReturnsNil
+	sLast = sAddErrorReturnsNil
 )
 
 var kindNames = []string{"ok", "ok+exec", "returns-error", "exec-fails", "panics(string)", "panics(error)", "panics(nil)",
 	"returns-context.Canceled", "returns-context.DeadlineExceeded", "returns-wrapped-context.Canceled", "returns-sql.ErrTxDone", "returns-io.EOF", "returns-gorm.ErrInvalidTransaction",
-	"nested-Transact(result ignored)", "nested-Transact(result returned)"}
+	"nested-Transact(result ignored)", "nested-Transact(result returned)", "records-an-error-on-the-handle-and-returns-nil"}
 
 var specialErrs = map[stepKind]error{
 	sErrCtxCanceled: context.Canceled, sErrCtxDeadline: context.DeadlineExceeded, sErrWrappedCtx: fmt.Errorf("step failed: %w", context.Canceled),
 	sErrTxDone: sql.ErrTxDone, sErrEOF: io.EOF, sErrGormInvalidTx: gorm.ErrInvalidTransaction,
 }
 
-func (k stepKind) fails() bool { return k >= sErr && k != sNestedIgnored }
+func (k stepKind) fails() bool { return k >= sErr && k != sNestedIgnored && k != sAddErrorReturnsNil }
 
 type panicErr struct{}
 
@@ -190,6 +194,9 @@ func mkStep(i int, k stepKind, e *env, r *run) gormx.GormProcFn {
 		case sPanicNil:
 			var p interface{}
 			panic(p)
+		case sAddErrorReturnsNil:
+			_ = txn.AddError(errRecorded)
+			return nil
 		case sNestedIgnored, sNestedPropagated:
 			before := len(e.events)
 			innerRan := false
@@ -212,6 +219,15 @@ func mkStep(i int, k stepKind, e *env, r *run) gormx.GormProcFn {
 	}
 }
 
+func hasKind(ks []stepKind, k stepKind) bool {
+	for _, x := range ks {
+		if x == k {
+			return true
+		}
+	}
+	return false
+}
+
 func count(ev []string, what string) int {
 	n := 0
 	for _, e := range ev {
@@ -223,6 +239,11 @@ func count(ev []string, what string) int {
 }
 
 func check(c *seq.Ctx, kinds []stepKind, failBegin, failCommit, failRollback bool, wrap string, level zapcore.Level) {
+	for i, k := range kinds {
+		if k == sAddErrorReturnsNil && i != len(kinds)-1 {
+			return // a recorded error makes every later statement on the handle fail: only the last step may leave one
+		}
+	}
 	ulog.SetLogLevel(level)
 	defer ulog.SetLogLevel(zapcore.DebugLevel)
 	e := &env{failBegin: failBegin, failCommit: failCommit, failRollback: failRollback}
@@ -326,7 +347,7 @@ func check(c *seq.Ctx, kinds []stepKind, failBegin, failCommit, failRollback boo
 				if !errors.Is(res, errCommit) {
 					fail("a failed commit is not reported", "commit failed")
 				}
-			} else if res != nil {
+			} else if res != nil && !(errors.Is(res, errRecorded) && hasKind(kinds, sAddErrorReturnsNil)) {
 				fail("all steps and the commit succeeded but an error is returned", "spurious error")
 			}
 		} else {
@@ -426,7 +447,7 @@ func checkHeld(c *seq.Ctx, kinds []stepKind, callerCommits bool) {
 
 func main() {
 	r := ev.Start("C18")
-	r.Rule("every step list of length 0..n over {ok, ok+Exec, returns error, Exec fails, panics(string), panics(error), panics(nil), special error values, a nested Transact on the step's own handle with its result ignored/returned} x begin ok/fails x commit ok/fails x rollback ok/fails x {plain, Combine(all), Combine(tail), nested Combine}, run through gormx.Transact on gorm's MySQL dialector over an in-process database/sql driver that records Begin/Exec/Commit/Rollback; plus Transact on a handle the caller already began a transaction on (no step, error, caller's transaction untouched and still finishable); lists of length <= 2 also under global log levels info/error/dpanic/fatal; distinct = (length, outcome class, fault pattern, wrapping)")
+	r.Rule("every step list of length 0..n over {ok, ok+Exec, returns error, Exec fails, panics(string), panics(error), panics(nil), special error values, a nested Transact on the step's own handle with its result ignored/returned, a step that records an error on the handle and returns nil} x begin ok/fails x commit ok/fails x rollback ok/fails x {plain, Combine(all), Combine(tail), nested Combine}, run through gormx.Transact on gorm's MySQL dialector over an in-process database/sql driver that records Begin/Exec/Commit/Rollback; plus Transact on a handle the caller already began a transaction on (no step, error, caller's transaction untouched and still finishable); lists of length <= 2 also under global log levels info/error/dpanic/fatal; distinct = (length, outcome class, fault pattern, wrapping)")
 	r.Assume("a failing driver callback has no effect", "panic(nil) follows the toolchain's semantics for the harness module (go 1.21: *runtime.PanicNilError)")
 	n := r.Pick(3, 4)
 	seq.RunFamily(r, seq.Family{Name: "transact", Run: func(c *seq.Ctx) {
